@@ -447,10 +447,11 @@ def apply_contract(ex, callee, fn, args, kwargs):
         prove(ex, 'call:%s.pre.%s@%s' % (short, lab, ex.cur_line), sub.spec_bool(expr, env))
     pre = P.snapshot()
     sub.old_env = env
-    havoc_modifies(ex, callee.modifies, sub)
     # objects the callee allocates get ids at or above the caller's current
     # allocation mark; fresh(x) in the callee's postcondition means exactly that
+    # (the mark is moved first: references havocked below may point to them)
     sub.fresh_base = P.bump_alloc()
+    havoc_modifies(ex, callee.modifies, sub)
     outcomes = ['return'] + sorted(callee.raises)
     k = P.choose(len(outcomes))
     if k == 0:
